@@ -10,16 +10,20 @@ RULE = ('a real client whose transport provider hands out a fresh simulated link
         'seeded sequences of 1..3 connection endings (server EOF, transport error, keepalive timeout with a silent '
         'server, explicit reconnect while healthy) with reconnect() called from on_close, from on_keepalive_timeout or '
         'from an unrelated task at a seeded instant, with request-response / stream / channel interactions pending on '
-        'the old connection. After each reconnect: old transport closed, old requests completed or failed, provider '
+        'the old connection; further endings: the link dying inside a fragment run of a fragmenting server, and a client '
+        'whose writes stop completing (frames pile up in its send queue) before an explicit reconnect; a channel whose '
+        'requester-side publisher keeps producing; in every fifth case a lease-honouring client against servers that '
+        'grant a lease after their own delay. After each reconnect: old transport closed, old requests completed or failed, provider '
         'asked again, SETUP first on the new transport, first new stream id 1, a respond-flagged KEEPALIVE within one '
-        'period, and a request issued afterwards answered. non-trivial = a case with >= 1 pending interaction at the '
+        'period, every frame on the new transport belongs to a stream opened on it, and a request issued afterwards '
+        'answered byte for byte. non-trivial = a case with >= 1 pending interaction at the '
         'time of the reconnect; distinct by case digest.')
 ASSUMPTIONS = ['"served" is restated as answered within 30 virtual seconds after the reconnect',
                'the keepalive period is 0.5 s and the maximum lifetime 2 s in timeout cases; eps = 10 ms']
 DECIDING_REQUIRED = ('reconnects_checked', 'reconnects_after_keepalive_timeout', 'pending_requests_at_reconnect',
                      'post_reconnect_requests_served')
 BUDGET_S = {'quick': 90, 'thorough': 1500}
-CAUSES = ['server-eof', 'transport-error', 'keepalive-timeout', 'explicit']
+CAUSES = ['server-eof', 'transport-error', 'keepalive-timeout', 'explicit', 'cut-mid-frame', 'stalled-writer']
 
 
 def plan(tier, seed):
@@ -53,7 +57,7 @@ async def _run(rng, desc):
             if isinstance(wait, (list, tuple)):
                 wait = wait[i % len(wait)]          # a different lease delay on every connection
             skw['lease_publisher'] = ScriptedLeasePublisher([(wait, n_, ttl_)])
-        server = RSocketServer(link.transports['s'], handler_factory=lambda: h, **skw)
+        server = RSocketServer(link.transports['s'], handler_factory=lambda: h, fragment_size_bytes=desc.get('frag_s'), **skw)
         c = {'link': link, 'server': server, 'handler': h, 'index': i}
         conns.append(c)
         world.log('provider_asked', conn=i)
@@ -106,13 +110,24 @@ async def _run(rng, desc):
                 fut = client.request_response(p)
                 out.append(('rr', i, fut))
             else:
-                world.specs[i] = {'iid': i, 'model': kind, 'side': 'c',
-                                  'resp': {'elems': [(10, 0)] * 3, 'terminal': 'never', 'pacing': ('timed', 0.05),
-                                           'source': 'rec', 'up_n0': 2}, 'up': None}
+                model = 'channel' if kind.startswith('channel') else kind
+                big = (200, 0) if desc.get('frag_s') else (10, 0)
+                world.specs[i] = {'iid': i, 'model': model, 'side': 'c',
+                                  'resp': {'elems': [big] * 6, 'terminal': 'never', 'pacing': ('timed', 0.05),
+                                           'source': 'rec', 'up_n0': 50 if kind == 'channel-up' else 2}, 'up': None}
                 sub = RecSubscriber(world, i, DIR_RESPONSE, 'sub%d' % i, policy=('refill', 2, 0), initial_granted=2)
-                h = client.request_stream(p) if kind == 'stream' else client.request_channel(p)
+                if kind == 'stream':
+                    h = client.request_stream(p)
+                elif kind == 'channel-up':
+                    # a channel whose requester-side publisher keeps producing: its sending direction stays open and
+                    # its frames are what a stalled writer leaves in the send queue
+                    from ..apps import RecPublisher, DIR_CHANNEL_UP
+                    up = RecPublisher(world, i, DIR_CHANNEL_UP, 'pub%d' % i, [(30, 0)] * 40, 'never', ('timed', 0.02))
+                    h = client.request_channel(p, up)
+                else:
+                    h = client.request_channel(p)
                 h.initial_request_n(2).subscribe(sub)
-                out.append((kind, i, sub))
+                out.append((model, i, sub))
         return out
 
     for rnd, step in enumerate(desc['rounds']):
@@ -121,7 +136,7 @@ async def _run(rng, desc):
         pending = await issue_pending(step['pending'])
         await asyncio.sleep(step['before'])
         cause = step['cause']
-        if cause == 'explicit' or where == 'task':
+        if cause in ('explicit', 'stalled-writer') or where == 'task':
             trigger = 'task'
         elif cause == 'keepalive-timeout':
             trigger = 'on_keepalive_timeout'
@@ -134,6 +149,19 @@ async def _run(rng, desc):
             await cur['server'].close()
         elif cause == 'transport-error':
             cur['link'].cut('error')
+        elif cause == 'cut-mid-frame':
+            # the link dies a little further into the server's byte / message stream: inside a fragment run when the
+            # server is sending fragmented elements
+            k = step.get('cut_in', 1)
+            cur['link'].cut_after('s', cur['link'].delivered('s') + (k if desc['link'] != 'bytes' else 20 * k), 'error')
+            await asyncio.sleep(0.3)
+            if not cur['link'].broken:
+                cur['link'].cut('error')
+        elif cause == 'stalled-writer':
+            # the client's writes stop completing (peer not reading): frames pile up in its send queue; then the
+            # application asks for a reconnect
+            cur['link'].knobs['c'].drain = ('virtual', 1.0e4)
+            await asyncio.sleep(0.5)
         elif cause == 'keepalive-timeout':
             # the server goes silent: nothing it sends is delivered any more
             if desc['link'] == 'bytes':
@@ -223,6 +251,16 @@ def judge(world, rounds, conns, desc):
             continue
         if sent[0]['f']['type'] != 'SETUP':
             bad('first-frame-on-new-transport-not-setup', rnd, first=brief(sent[0]['f']))
+        opened = set()
+        for e in world.events:
+            if e['kind'] == 'wire' and e.get('conn') == n and e['ep'] == 'c':
+                f = e['f']
+                sid = f.get('sid', 0)
+                if f['type'].startswith('REQUEST_') and f['type'] != 'REQUEST_N':
+                    opened.add(sid)
+                elif sid and e['dir'] == 'send' and sid not in opened:
+                    bad('frame-of-a-stream-never-opened-on-the-new-transport', rnd, frame=brief(f), new_conn=n)
+                    break
         reqs = [e['f'] for e in sent if e['f']['type'].startswith('REQUEST_') and e['f']['type'] != 'REQUEST_N']
         if reqs and reqs[0]['sid'] != 1:
             bad('stream-ids-not-restarted', rnd, first_stream_id=reqs[0]['sid'])
@@ -242,15 +280,16 @@ def gen_case(rng):
     nr = rng.choice([1, 1, 2, 3])
     rounds = []
     for _ in range(nr):
-        rounds.append({'cause': rng.choice(CAUSES), 'pending': rng.choice([[], ['rr'], ['stream'], ['channel'],
-                                                                             ['rr', 'stream', 'channel'], ['rr', 'rr']]),
+        rounds.append({'cause': rng.choice(CAUSES), 'cut_in': rng.choice([1, 2, 3, 5]),
+                       'pending': rng.choice([[], ['rr'], ['stream'], ['channel'], ['channel-up'], ['channel-up', 'stream'],
+                                              ['rr', 'stream', 'channel'], ['rr', 'rr']]),
                        'before': rng.choice([0.0, 0.01, 0.12, 0.6, rng.random()]),
                        'task_delay': rng.choice([0.0, 0.01, 0.3, 2.5, 5.0])})
     lease = None
     if rng.random() < 0.2:
         # a lease-honouring client; every server grants a generous lease after its own delay
         lease = [[rng.choice([0.0, 0.3, 1.0, 2.0]) for _ in range(4)], 100, 60000]
-    return {'link': rng.choice(['bytes', 'messages']), 'P': 0.5, 'L': 2.0, 'lease': lease,
+    return {'link': rng.choice(['bytes', 'messages']), 'P': 0.5, 'L': 2.0, 'lease': lease, 'frag_s': rng.choice([None, 64, 64]),
             'connect': rng.choice([('none',), ('none',), ('ticks', 1), ('ticks', 3), ('virtual', 0.01)]),
             'provider_wait': rng.choice([('none',), ('none',), ('ticks', 1), ('ticks', 4), ('virtual', 0.05)]),
             'reconnect_from': rng.choice(['on_close', 'on_keepalive_timeout', 'task']), 'rounds': rounds}
